@@ -48,6 +48,9 @@ def handleTrNumFmt : List String → Option String
   | ["fracparts", w, n, d] => do
     let w ← w.toInt?; let n ← n.toInt?; let d ← d.toInt?
     pure (showPyM showText (format_fraction_parts_to w n d))
+  | ["twos", v, b] => do
+    let v ← v.toInt?; let b ← b.toInt?
+    pure (showPyM showText (twos_complement v b))
   | _ => none
 
 def trDispatch (line : String) : String :=
